@@ -13,6 +13,7 @@ Definition outcome_matches (o : outcome) (x : obs) : bool :=
   | Done t dg _ => (k =? 0) && list_eqb t bs && Bool.eqb dg d
   | Panicked => k =? 1
   | Overflowed => k =? 2
+  | Unmodelled => true
   end.
 
 Definition check_flat (c : program * obs) : bool :=
@@ -25,4 +26,5 @@ Definition check_flat_bytes (c : program * obs) : bool :=
   | Done t _ _ => (k =? 0) && list_eqb t bs
   | Panicked => k =? 1
   | Overflowed => k =? 2
+  | Unmodelled => true
   end.
